@@ -1,0 +1,188 @@
+//go:build verif
+
+package pdf
+
+import (
+	"io"
+	"strconv"
+)
+
+// This file is only compiled with the build tag "verif".  It exposes the
+// unexported standard security handler (crypto.go) to the external
+// verification harness (properties C09, C10); it adds no behaviour of its own.
+
+// VerifSec is a view of a stdSecHandler.
+type VerifSec struct {
+	R         int
+	ID        []byte
+	O, U      []byte
+	OE, UE    []byte
+	Perms     []byte
+	P         uint32
+	KeyBytes  int
+	Key       []byte
+	UnencMeta bool
+
+	s *stdSecHandler
+}
+
+func verifSecOf(s *stdSecHandler) *VerifSec {
+	if s == nil {
+		return nil
+	}
+	return &VerifSec{
+		R: s.R, ID: s.ID, O: s.O, U: s.U, OE: s.OE, UE: s.UE, Perms: s.Perms,
+		P: s.P, KeyBytes: s.keyBytes, Key: s.key, UnencMeta: s.unencryptedMetadata,
+		s: s,
+	}
+}
+
+// VerifEncInfo wraps an encryptInfo.
+type VerifEncInfo struct {
+	e *encryptInfo
+}
+
+func verifCF(cf *cryptFilter) string {
+	if cf == nil {
+		return "identity"
+	}
+	switch cf.Cipher {
+	case cipherRC4:
+		return "rc4-" + strconv.Itoa(cf.Length)
+	case cipherAES:
+		return "aes-" + strconv.Itoa(cf.Length)
+	}
+	return "unknown-" + strconv.Itoa(cf.Length)
+}
+
+func (v *VerifEncInfo) Sec() *VerifSec  { return verifSecOf(v.e.sec) }
+func (v *VerifEncInfo) StrF() string    { return verifCF(v.e.strF) }
+func (v *VerifEncInfo) StmF() string    { return verifCF(v.e.stmF) }
+func (v *VerifEncInfo) IsNil() bool     { return v == nil || v.e == nil }
+func (v *VerifEncInfo) ForgetKey()      { v.e.sec.key = nil }
+func (v *VerifEncInfo) SetKey(k []byte) { v.e.sec.key = k }
+
+func (v *VerifEncInfo) EncryptBytes(ref Reference, buf []byte) ([]byte, error) {
+	return v.e.EncryptBytes(ref, buf)
+}
+func (v *VerifEncInfo) DecryptBytes(ref Reference, buf []byte) ([]byte, error) {
+	return v.e.DecryptBytes(ref, buf)
+}
+func (v *VerifEncInfo) EncryptStream(ref Reference, w io.WriteCloser) (io.WriteCloser, error) {
+	return v.e.EncryptStream(ref, w)
+}
+func (v *VerifEncInfo) DecryptStream(ref Reference, r io.Reader) (io.Reader, error) {
+	return v.e.DecryptStream(ref, r)
+}
+func (v *VerifEncInfo) KeyForRef(aes bool, ref Reference) ([]byte, error) {
+	cf := &cryptFilter{Cipher: cipherRC4, Length: v.e.sec.keyBytes * 8}
+	if aes {
+		cf.Cipher = cipherAES
+	}
+	return v.e.sec.KeyForRef(cf, ref)
+}
+func (v *VerifEncInfo) AsDict(version Version) (Dict, error) { return v.e.AsDict(version) }
+func (v *VerifEncInfo) Authenticate(pw string) (Perm, error) { return v.e.sec.authenticate(pw) }
+
+// VerifNewEncInfo builds an encryptInfo for the per-object operations:
+// cipher is "rc4", "aes" or "none" (nil crypt filters).
+func VerifNewEncInfo(cipher string, R, keyBytes int, key []byte) *VerifEncInfo {
+	var cf *cryptFilter
+	switch cipher {
+	case "rc4":
+		cf = &cryptFilter{Cipher: cipherRC4, Length: keyBytes * 8}
+	case "aes":
+		cf = &cryptFilter{Cipher: cipherAES, Length: keyBytes * 8}
+	}
+	return &VerifEncInfo{e: &encryptInfo{
+		sec:  &stdSecHandler{R: R, keyBytes: keyBytes, key: key},
+		strF: cf, stmF: cf, efF: cf,
+	}}
+}
+
+// VerifNewSec builds a handler from its fields (no key).
+func VerifNewSec(R int, id, O, U []byte, P uint32, keyBytes int, unencMeta bool) *VerifSec {
+	return verifSecOf(&stdSecHandler{R: R, ID: id, O: O, U: U, P: P, keyBytes: keyBytes, unencryptedMetadata: unencMeta})
+}
+
+func (v *VerifSec) ComputeFileKey(paddedUser []byte) []byte {
+	return v.s.computeFileEncyptionKey(paddedUser)
+}
+func (v *VerifSec) ComputeO(pu, po []byte) []byte { return v.s.computeO(pu, po) }
+func (v *VerifSec) ComputeU(key []byte) []byte    { return v.s.computeU(key) }
+
+func VerifPadPasswd(pw string) ([]byte, error)  { return padPasswd(pw) }
+func VerifUtf8Passwd(pw string) ([]byte, error) { return utf8Passwd(pw) }
+func VerifPermToP(p Perm) uint32                { return stdSecPermToP(p) }
+func VerifPToPerm(R int, P uint32) Perm         { return stdSecPToPerm(R, P) }
+func VerifCanR2(p Perm) bool                    { return p.canR2() }
+func VerifUnpadPKCS7(b []byte) ([]byte, error)  { return unpadPKCS7(b) }
+func VerifTryCrop(s String, l int) String       { return tryCrop(s, l) }
+func VerifSlowHash(pw, salt, u []byte) []byte   { return slowHash(pw, salt, u) }
+
+// VerifCreateStdSec calls createStdSecHandler.
+func VerifCreateStdSec(id []byte, user, owner string, perm Perm, length, V int, unencMeta bool) (*VerifSec, error) {
+	s, err := createStdSecHandler(id, user, owner, perm, length, V, unencMeta)
+	if err != nil {
+		return nil, err
+	}
+	return verifSecOf(s), nil
+}
+
+// VerifParseEncryptDict calls Reader.parseEncryptDict on a direct dictionary
+// for a reader whose trailer /ID is ids.
+func VerifParseEncryptDict(enc Dict, ids [][]byte, password string) (*VerifEncInfo, Perm, error) {
+	r := &Reader{unencrypted: map[Reference]bool{}}
+	r.meta.ID = ids
+	e, perm, err := r.parseEncryptDict(enc, password)
+	if err != nil {
+		return nil, 0, err
+	}
+	return &VerifEncInfo{e: e}, perm, nil
+}
+
+// VerifWriterEnc returns the Writer's encryptInfo (nil when not encrypting).
+func VerifWriterEnc(w *Writer) *VerifEncInfo {
+	if w.w.enc == nil {
+		return nil
+	}
+	return &VerifEncInfo{e: w.w.enc}
+}
+
+// VerifReaderEnc returns the Reader's encryptInfo (nil when not encrypted).
+func VerifReaderEnc(r *Reader) *VerifEncInfo {
+	if r.enc == nil {
+		return nil
+	}
+	return &VerifEncInfo{e: r.enc}
+}
+
+// DropFilters makes the per-object operations the identity (raw access to
+// the stored bytes of an encrypted file through the normal Reader).
+func (v *VerifEncInfo) DropFilters() {
+	v.e.strF = nil
+	v.e.stmF = nil
+}
+
+// VerifXRefEntry is one in-use entry of a Reader's cross reference table.
+type VerifXRefEntry struct {
+	Ref      Reference
+	Pos      int64
+	InStream Reference
+}
+
+// VerifReaderXRef lists the in-use entries of the Reader's xref table.
+func VerifReaderXRef(r *Reader) []VerifXRefEntry {
+	var res []VerifXRefEntry
+	for num, e := range r.xref {
+		if e.IsFree() {
+			continue
+		}
+		res = append(res, VerifXRefEntry{Ref: NewReference(num, e.Generation), Pos: e.Pos, InStream: e.InStream})
+	}
+	return res
+}
+
+// VerifReaderUnencrypted reports whether the Reader treats ref as exempt
+// from encryption.
+func VerifReaderUnencrypted(r *Reader, ref Reference) bool { return r.unencrypted[ref] }
